@@ -28,20 +28,23 @@ CONSTANTS Checkers,        \* set of checker names
           Residue,         \* [Checkers \X Files -> SUBSET tokens] what a Check leaves in scratch
           Sensitive,       \* [Checkers \X Files -> SUBSET tokens] residue that would alter the result
           Rewriters,       \* checkers that rewrite (a copy of) the tree while working
+          HasImports,      \* [Files -> BOOLEAN] the file has import declarations
           ResetBuf, ResetScratch, InPlaceInfo, CopiesFirst,   \* what-if switches (TRUE = what the code does)
+          RebuildImports,  \* SetFileInfo rebuilds the import tables (PkgObjects / PkgRenames) for every file
           MaxHist
 
 VARIABLES ctxPkg, ctxFile,   \* shared context
+          ctxImports,        \* the file whose imports Context.PkgObjects / PkgRenames describe
           infoId,            \* identity of ctx.TypesInfo (the pointer)
           captured,          \* [Checkers -> identity captured at construction]
           tree,              \* [Files -> {"orig","damaged"}]
           buf, scratch, cpc, ret,
           last, steps        \* the last completed action (history is not kept: traces are long) and their number
 
-vars == <<ctxPkg, ctxFile, infoId, captured, tree, buf, scratch, cpc, ret, last, steps>>
+vars == <<ctxPkg, ctxFile, ctxImports, infoId, captured, tree, buf, scratch, cpc, ret, last, steps>>
 None == "none"
 
-Init == /\ ctxPkg = None /\ ctxFile = None /\ infoId = 0
+Init == /\ ctxPkg = None /\ ctxFile = None /\ ctxImports = None /\ infoId = 0
         /\ captured = [c \in Checkers |-> 0]
         /\ tree = [f \in Files |-> "orig"]
         /\ buf = [c \in Checkers |-> <<>>] /\ scratch = [c \in Checkers |-> {}]
@@ -56,11 +59,12 @@ SetPackageInfo(p) ==
   /\ ctxFile' = None
   /\ infoId' = IF InPlaceInfo THEN infoId ELSE infoId + 1    \* *c.TypesInfo = *info  vs  c.TypesInfo = info
   /\ last' = <<"pkg", p>> /\ steps' = steps + 1
-  /\ UNCHANGED <<captured, tree, buf, scratch, cpc, ret>>
+  /\ UNCHANGED <<ctxImports, captured, tree, buf, scratch, cpc, ret>>
 
 SetFileInfo(f) ==
   /\ Idle /\ ctxPkg = PkgOf[f]
   /\ ctxFile' = f
+  /\ ctxImports' = IF RebuildImports \/ HasImports[f] THEN f ELSE ctxImports   \* what-if: "nothing to do for a file without imports"
   /\ last' = <<"file", f>> /\ steps' = steps + 1
   /\ UNCHANGED <<ctxPkg, infoId, captured, tree, buf, scratch, cpc, ret>>
 
@@ -71,7 +75,7 @@ CheckBegin(c) ==
   /\ cpc[c] = "idle" /\ ctxFile # None
   /\ buf' = [buf EXCEPT ![c] = IF ResetBuf THEN <<>> ELSE @]
   /\ cpc' = [cpc EXCEPT ![c] = "walking"]
-  /\ UNCHANGED <<ctxPkg, ctxFile, infoId, captured, tree, scratch, ret, last, steps>>
+  /\ UNCHANGED <<ctxPkg, ctxFile, ctxImports, infoId, captured, tree, scratch, ret, last, steps>>
 
 \* The walk: emits the reference diagnostics unless stale residue, stale type info or a damaged tree interferes.
 \* ref = the reference result for (c, ctxFile); a parameter so that the trace specification can pass the
@@ -83,12 +87,13 @@ WalkRef(c, ref) ==
          clean == /\ seen \cap Sensitive[<<c, f>>] = {}
                   /\ SeesCurrentPkg(c)
                   /\ tree[f] = "orig"
+                  /\ ctxImports = f
          emitted == IF clean THEN ref ELSE ref \o <<"stale">>
      IN /\ buf' = [buf EXCEPT ![c] = @ \o emitted]
         /\ scratch' = [scratch EXCEPT ![c] = seen \cup Residue[<<c, f>>]]
         /\ tree' = IF c \in Rewriters /\ ~CopiesFirst THEN [tree EXCEPT ![f] = "damaged"] ELSE tree
   /\ cpc' = [cpc EXCEPT ![c] = "walked"]
-  /\ UNCHANGED <<ctxPkg, ctxFile, infoId, captured, ret, last, steps>>
+  /\ UNCHANGED <<ctxPkg, ctxFile, ctxImports, infoId, captured, ret, last, steps>>
 
 Walk(c) == WalkRef(c, Diag[<<c, ctxFile>>])
 
@@ -97,7 +102,7 @@ CheckEnd(c) ==
   /\ ret' = [ret EXCEPT ![c] = buf[c]]
   /\ cpc' = [cpc EXCEPT ![c] = "idle"]
   /\ last' = <<"check", c, ctxFile>> /\ steps' = steps + 1
-  /\ UNCHANGED <<ctxPkg, ctxFile, infoId, captured, tree, buf, scratch>>
+  /\ UNCHANGED <<ctxPkg, ctxFile, ctxImports, infoId, captured, tree, buf, scratch>>
 
 Next == /\ steps < MaxHist
         /\ \/ \E p \in Pkgs : SetPackageInfo(p)
@@ -117,6 +122,7 @@ InputsReadOnly == \A f \in Files : tree[f] = "orig"
 BufEmptyAtBegin == \A c \in Checkers : cpc[c] = "walking" => buf[c] = <<>>
 FileInPkg == ctxFile # None => PkgOf[ctxFile] = ctxPkg
 InfoIdentityStable == infoId = 0
+CtxImportsCurrent == ctxFile # None => ctxImports = ctxFile
 TypeOK == /\ ctxPkg \in Pkgs \cup {None} /\ ctxFile \in Files \cup {None}
           /\ \A c \in Checkers : cpc[c] \in {"idle", "walking", "walked"}
 =============================================================================
